@@ -20,6 +20,50 @@ def lib():
     return _S
 
 
+def prelude():
+    """Use the library's other entry points once before a shard's own workload (every second shard): state
+    left behind by generation, random draws, look-ups, copies or failing calls must not change any verdict."""
+    import copy  # noqa: PLC0415
+    from random import Random  # noqa: PLC0415
+
+    S = lib()
+    from vf.ref import data as D_  # noqa: PLC0415
+
+    table = D_.countries()
+    rng = env.rng("prelude")
+    for cc in ["DE", "GB", "FR", "NO", "PL", "IS", "XK", "HN", "GW"] + rng.sample(sorted(table), 8):
+        spec = table.get(cc)
+        if not spec:
+            continue
+        for f in (lambda: S.IBAN.random(cc, random=Random(1)), lambda: S.IBAN.generate(cc, bank_code="1", account_code="1"),
+                  lambda: S.BBAN.from_components(cc, bank_code="1", account_code="2"), lambda: S.IBAN.from_bban(cc, "0" * spec["bban_length"]),
+                  lambda: S.IBAN(cc + "00" + "0" * spec["bban_length"], allow_invalid=True).country, lambda: S.BBAN(cc, "12A4").validate_national_checksum()):
+            observe(f)
+    for f in (lambda: S.BIC.from_bank_code("DE", "37040044"), lambda: S.BIC.candidates_from_bank_code("FR", "30004"), lambda: S.BIC("GENODEM1GLS").country,
+              lambda: S.BIC("ABCDXK22", allow_invalid=True).country, lambda: S.BIC("ABCDZZ22"), lambda: copy.deepcopy(S.IBAN("DE89370400440532013000")),
+              lambda: S.IBAN("DE89370400440532013000", validate_bban=True).bic, lambda: S.IBAN("DE00370400440532013000"), lambda: S.IBAN.random(random=Random(2))):
+        observe(f)
+
+
+def from_bban_sloppy_arguments(mon, cc, b0, table):
+    """from_bban is a validating constructor: whatever it returns must be a valid IBAN by the reference, also
+    for sloppy arguments (surplus characters in the country code, short / long / decorated BBANs)."""
+    S = lib()
+    for carg, barg in [(cc + b0[:1], b0[1:]), (cc + "8", b0[:-1]), (cc + "89", b0[:-2]), (cc.lower(), b0), (cc + " ", b0), (cc, b0 + "0"), (cc, b0[:-1]),
+                       (cc, " " + b0), (cc, b0.lower()), (cc[:1], cc[1:] + b0), ("", b0), (cc, ""), (cc + "00", b0[2:]), (cc, b0[:4] + " " + b0[4:])]:
+        for kw in ({}, {"validate_bban": True}):
+            o = observe(S.IBAN.from_bban, carg, barg, **kw)
+            mon.ev()
+            mon.tally("from_bban_sloppy_arguments")
+            w2 = {"country_arg": carg, "bban_arg": barg, "kw": kw}
+            if o.ok:
+                e = R.expect_iban(str(o.value), table)
+                if e.verdict == R.REJECT:
+                    mon.viol("from_bban_returned_invalid_iban", w2, sorted(e.defects), str(o.value))
+            elif not is_lib_exc(o.exc):
+                mon.viol(f"escape:from_bban:{o.exc_name}", w2, "library error", o.brief())
+
+
 def is_lib_exc(e) -> bool:
     return isinstance(e, lib().exceptions.SchwiftyException)
 
